@@ -81,7 +81,7 @@ func Truncate(dst, src Sliceable, start, end int) error {
 		return nil
 	}
 
-	if src, ok := src.(seq.Conformationer); !ok || src.Conformation() == feat.Linear {
+	if src, ok := src.(seq.Conformationer); !ok || src.Conformation() <= feat.Linear {
 		return errors.New("sequtils: start position greater than end position for linear sequence")
 	}
 	if end < offset || start > src.End() {
